@@ -7,10 +7,31 @@
 package vsync
 
 import (
+	"runtime"
+	"strconv"
+	"strings"
 	"sync"
 
 	"verif/sim/vsim"
+	"verif/sim/vtok"
 )
+
+// caller names the repository statement that asked for the lock (diagnostics of blocked clients).
+func caller() string {
+	for skip := 2; skip < 6; skip++ {
+		_, file, line, ok := runtime.Caller(skip)
+		if !ok {
+			break
+		}
+		if !strings.Contains(file, "/sim/vsync/") {
+			if i := strings.LastIndex(file, "/"); i >= 0 {
+				file = file[i+1:]
+			}
+			return file + ":" + strconv.Itoa(line)
+		}
+	}
+	return "?"
+}
 
 type waiter struct {
 	write bool
@@ -66,6 +87,14 @@ func (m *RWMutex) grant() {
 }
 
 func (m *RWMutex) Lock() {
+	if t := vtok.Cur; t != nil {
+		// token engine: the real mutex (genuine acquire/release edges for the race detector),
+		// taken without ever blocking the token holder
+		for !m.real.TryLock() {
+			t.Blocked("blocked on lock " + caller())
+		}
+		return
+	}
 	if !m.inBubble() {
 		m.real.Lock()
 		return
@@ -84,6 +113,10 @@ func (m *RWMutex) Lock() {
 }
 
 func (m *RWMutex) Unlock() {
+	if vtok.Cur != nil {
+		m.real.Unlock()
+		return
+	}
 	if !m.inBubble() {
 		m.real.Unlock()
 		return
@@ -99,6 +132,12 @@ func (m *RWMutex) Unlock() {
 }
 
 func (m *RWMutex) RLock() {
+	if t := vtok.Cur; t != nil {
+		for !m.real.TryRLock() {
+			t.Blocked("blocked on rlock " + caller())
+		}
+		return
+	}
 	if !m.inBubble() {
 		m.real.RLock()
 		return
@@ -127,6 +166,10 @@ func (m *RWMutex) Held() bool {
 func (m *Mutex) Held() bool { return m.rw.Held() }
 
 func (m *RWMutex) RUnlock() {
+	if vtok.Cur != nil {
+		m.real.RUnlock()
+		return
+	}
 	if !m.inBubble() {
 		m.real.RUnlock()
 		return
